@@ -204,6 +204,9 @@ def build(pp, prog, use_hook=None) -> Built:
         elif op == "iw_inplace":
             ref(a[0]).ignore_whitespace()
             continue
+        elif op == "swc_inplace":   # set_whitespace_chars on the object itself (C12 histories)
+            ref(a[0]).set_whitespace_chars(a[1])
+            continue
         elif op == "streamline":
             ref(a[0]).streamline()
             continue
